@@ -396,12 +396,19 @@ func c16Run(r *ev.Run, s c16Session, record bool) (msgs []e2e.Msg) {
 					} else {
 						if s.Outage {
 							// every attempt made meanwhile is refused; the attempts made after the outage get the full timeout again
+							t0 := time.Now()
 							time.Sleep(c16OutageTimeout)
-							// the connection has been gone for a whole reconnect timeout and every attempt is refused
+							// the connection has been gone for a whole reconnect timeout and every attempt is refused: the client must
+							// stop reporting that it is connected (a loaded machine gets 5 s to notice, the peer staying unreachable)
+							for c.Connected() && time.Since(t0) < 5*time.Second {
+								time.Sleep(5 * time.Millisecond)
+							}
 							if c.Connected() {
 								reportsConnected = true
 							}
-							time.Sleep(2 * c16OutageTimeout)
+							if rest := 3*c16OutageTimeout - time.Since(t0); rest > 0 {
+								time.Sleep(rest)
+							}
 							r.Add("outages_longer_than_the_reconnect_timeout", 1)
 						}
 						px.SetAccept(true)
@@ -572,7 +579,7 @@ func c16Run(r *ev.Run, s c16Session, record bool) (msgs []e2e.Msg) {
 	db := env.Sys.State()
 	r.Add("sessions_completed", 1)
 	if reportsConnected {
-		r.Violation("c16.reports-connected-during-outage."+feature, fmt.Sprintf("[%s] a whole reconnect timeout after the connection was cut, with the peer refusing every new connection, Connected() still answers true (the cache is not following the database)", s), cse("Connected() during the outage"))
+		r.Violation("c16.reports-connected-during-outage."+feature, fmt.Sprintf("[%s] 5 s after the connection was cut, with the peer refusing every new connection, Connected() still answers true (the cache is not following the database)", s), cse("Connected() during the outage"))
 	}
 	if d := c01Compare(ref, e2e.CacheState(ref, c), db, monitored); d != "" {
 		r.Violation("c16.cache-differs."+feature, fmt.Sprintf("[%s] after the session the cache differs from the database:\n%s", s, d), cse(d))
